@@ -99,6 +99,8 @@ def main():
             cs = cs + family.exhaustive(fam)
         if fam == "reduce":
             cs = cs + family.exhaustive("reduce-brackets")
+        if fam == "argfind":
+            cs = cs + family.exhaustive("argfind-brackets")
         cases_by_family[fam] = cs
         for c in cs:
             for b in backends_for(c):
